@@ -100,6 +100,33 @@ func newRepoUnderTest(impl string, scratch string) (*repoUnderTest, error) {
 	return u, nil
 }
 
+func protoTasks(ts []def.Task) string { return proto.Tasks(ts) }
+func protoTime(t time.Time) string    { return proto.Time(t) }
+
+// openEntFile opens (and optionally creates the schema of) a file-backed SQLite repository.
+func openEntFile(file string, create bool) (*repoUnderTest, error) {
+	u := &repoUnderTest{clk: vclock.New(T0)}
+	client, err := gen.Open("sqlite3", "file:"+file+"?_fk=1")
+	if err != nil {
+		return nil, err
+	}
+	if create {
+		schemaMu.Lock()
+		err = client.Schema.Create(context.Background())
+		schemaMu.Unlock()
+		if err != nil {
+			client.Close()
+			return nil, err
+		}
+	}
+	e := entrepo.NewEntRepository(client)
+	e.VerifSetClock(u.clk)
+	e.VerifSetRandStrGen(func() string { return u.nextId })
+	u.repo, u.rec = e, e
+	u.closeFn = func() { client.Close() }
+	return u, nil
+}
+
 func ctxOf(c string) context.Context {
 	if c == "1" {
 		ctx, cancel := context.WithCancel(context.Background())
